@@ -305,6 +305,59 @@ pub fn judge_history(d: &mut Driver, rep: &mut Report, c: &TableCase, s: &Sessio
         fail(rep, c, "iterator is not equivalent to a cursor over the sorted entry list", vec![("verdict", J::s(&v)), ("ops", J::s(&s.ops.iter().map(|o| o.text()).collect::<Vec<_>>().join(";"))), ("observed", J::s(&obs))]);
     }
 }
+/// the crate's iterator glue: the same history through `Box<dyn SSIterator>` (`impl SSIterator for Box<dyn
+/// SSIterator>`) and through `Iterator for dyn SSIterator` must behave exactly like the iterator it wraps
+/// (which is the one compared with the model and judged above)
+fn boxed_glue(rep: &mut Report, c: &TableCase, ops: &[Op]) {
+    use sstable::{SSIterator, Table};
+    let open = |img: &Vec<u8>| -> Option<Table> {
+        let mut o = c.cfg.options();
+        o.filter_policy = c.cfg.pol.boxed();
+        Table::new(o, Box::new(img.clone()), img.len()).ok()
+    };
+    let (ta, tb) = match (open(&c.img), open(&c.img)) {
+        (Some(a), Some(b)) => (a, b),
+        _ => return,
+    };
+    let mut plain = ta.iter();
+    let mut boxed: Box<dyn SSIterator> = Box::new(tb.iter());
+    rep.count("boxed_glue_histories");
+    for (j, op) in ops.iter().enumerate() {
+        let (a, b): (String, String) = match op {
+            Op::Adv(_) => (format!("{}", plain.advance()), format!("{}", boxed.advance())),
+            Op::Next(_) => {
+                // alternate between the trait's default `next` on the Box and `Iterator::next` on the dyn object
+                let x = show_kv(&SSIterator::next(&mut plain));
+                let y = if j % 2 == 0 { show_kv(&SSIterator::next(&mut boxed)) } else { show_kv(&Iterator::next(&mut *boxed)) };
+                (x, y)
+            }
+            Op::Prev(_) => (format!("{}", plain.prev()), format!("{}", boxed.prev())),
+            Op::Reset(_) => {
+                plain.reset();
+                boxed.reset();
+                continue;
+            }
+            Op::First(_) => {
+                plain.seek_to_first();
+                boxed.seek_to_first();
+                continue;
+            }
+            Op::Seek(_, k) => {
+                plain.seek(k);
+                boxed.seek(k);
+                continue;
+            }
+            Op::Valid(_) => (format!("{}", plain.valid()), format!("{}", boxed.valid())),
+            Op::Cur(_) => (show_kv(&dirty_current(&plain)), show_kv(&dirty_current(&boxed))),
+            Op::Key(_) => (plain.current_key().map(hex).unwrap_or("none".into()), boxed.current_key().map(hex).unwrap_or("none".into())),
+            _ => continue,
+        };
+        if a != b {
+            rep.judge_fail(J::obj(vec![("what", J::s("Box<dyn SSIterator> / Iterator for dyn SSIterator behaves differently from the iterator it wraps")), ("cfg", J::s(&c.cfg.describe())), ("entries", J::s(&entries_str(&c.es))), ("ops", J::s(&ops.iter().map(|o| o.text()).collect::<Vec<_>>().join(";"))), ("op_index", J::N(j as i64)), ("plain", J::s(&a)), ("boxed", J::s(&b))]));
+            return;
+        }
+    }
+}
 pub fn c04(ctx: &Ctx) -> Report {
     let base = Report::new("C04", "tables as in C01 x random call histories (advance, next, prev [always followed by a current query, which resolves the unspecified prev-from-invalid], reset, seek_to_first, seek(t) for t in the C02 target set, valid/current/current_key) of length 40 (quick) / 120 (thorough), plus (thorough) every history of length <= 5 over {advance, prev, reset, seek(t)} on every table over subsets of a 4-key universe with 3 layouts; judged by replaying the observations on the Spec cursor; iterator state fingerprints are compared with the model after every call; non-trivial = history containing prev or seek on a table with >= 2 entries");
     let n = ncases(ctx, 5000, 40000);
@@ -327,6 +380,9 @@ pub fn c04(ctx: &Ctx) -> Report {
             rep.count_n("iterator_calls", s.ops.len() as u64 - 2);
             let out = compare(d, rep, &s);
             judge_history(d, rep, &c, &s, &out);
+            if i % 8 == 0 {
+                boxed_glue(rep, &c, &s.ops);
+            }
             if i < 2 && t == 0 {
                 rep.sample(J::obj(vec![("cfg", J::s(&c.cfg.describe())), ("entries", J::s(&entries_str(&c.es))), ("ops", J::s(&s.ops.iter().map(|o| o.text()).collect::<Vec<_>>().join(";")))]));
             }
